@@ -11,7 +11,7 @@ BASE_NOTE = ('Trusted: CPython 3.12.1 of /venv, jsonpickle 0.9.3 (domain gate), 
 P = {
  'C01': ('exploration', 'differential record/replay monitor over generated programs',
          'Generated operation programs (all decorator shapes, threads, handlers, resolvers, capture subsets) are recorded and '
-         'replayed against a poison world on every cassette type; a client-side journal is the oracle for every intercepted call '
+         'replayed against a poison world on every cassette type, also after one service-level fault at every step (unencodable exceptions/values from intercepted bodies); a client-side journal is the oracle for every intercepted call '
          'and for Playback.playback_outputs vs recorded_outputs. Exploration is the right level: the quantifier is over programs and values.',
          'values restricted to the calibrated faithful domain of jsonpickle; inputs pure in (alias, captured args)', '3 C01'),
  'C02': ('exploration', 'reference replay-policy monitor + store-immutability monitor',
